@@ -138,7 +138,8 @@ fn verif_narrow_module_arm(slf: &Shape, l: &ModuleShape, r: &ModuleShape, symbol
 // fix 22a0f13 reverted: the pair is recorded only after the expansion
 //@   mutant marker_after_expansion "let result = other.narrow_cached(&expanded, symbol_table, seen); seen[idx].2 = result.clone();" => "seen.pop(); let result = other.narrow_cached(&expanded, symbol_table, seen); seen.push((cref.val.clone(), other.clone(), result.clone()));" expect narrow_cached
 //@   mutant cache_not_consulted "return cached.2.clone();" => "" expect narrow_cached
-//@   mutant expands_against_itself "let result = other.narrow_cached(&expanded, symbol_table, seen);" => "let result = self.narrow_cached(right, symbol_table, seen);" expect narrow_cached
+//@   mutant marker_for_wrong_shape "seen.push(( cref.val.clone(), other.clone(), Shape::TypeErr(" => "seen.push(( cref.val.clone(), expanded.clone(), Shape::TypeErr(" expect narrow_cached
+//@   mutant candidate_loop_renarrows_self "let result = t.narrow_cached(other, symbol_table, seen);" => "let result = self.narrow_cached(other, symbol_table, seen);" expect narrow_cached
 //@ end
 
 //@ extract src/ast/mod.rs :: impl Shape :: fn narrow
